@@ -11,16 +11,19 @@ CLAIMS = {
             'Decides, for all 700+ architectural units of the opcode table (opcode bytes x /digit | +r | +cc, the four mandatory-prefix variants of MMX/SSE rows), that mnemonic, operand '
             'signature (r/m vs reg order, byte/word/operand-size width, sign-extended imm8, fixed immediates, accumulator/CL/DX/segment/moffs operands, x87 memory width), store direction '
             'and imm8 presence are those of IA-32; that no two rows claim one cell; that self.l/self.b/self.offset are the consumed window; that ModRM/displacement/moffs are sized by the '
-            'address size and immediates/relative targets/registers by the operand size; that get_afs reads each displacement token with its own format and byte count.',
-            'Not decided: contents of the ModRM/SIB tables built by init_pre_modrm at run time, the register file chosen per SSE row inside _dis (e.g. 66 0F D6 with mod=3), rendering by '
+            'address size and immediates/relative targets/registers by the operand size; that get_afs reads each displacement token with its own format and byte count; that all 256 32-bit ModRM '
+            'entries, 3 x 256 SIB entries, 256 16-bit ModRM entries and the mm/xmm register forms built by init_pre_modrm (evaluated statically) equal the architectural definition, and the register '
+            'lists carry the IA-32 numbering.',
+            'Not decided: the register file chosen per SSE row inside _dis (e.g. 66 0F D6 with mod=3), rendering by '
             '__str__/dict_to_ad. The ref is trusted (authored from the SDM; disagreements found while authoring were triaged against gdb/objdump knowledge: 2 typos fixed, 1 known finding).'),
     'C02': ('other',
             'static analysis: narrowing-site classification over the assembly closure (dominance of the range check whose size token equals the narrowing), interval extraction of check_imm_size, mode-variable consistency',
             'Decides the "never silently truncated" clause: every fixed-width cast / mask applied to an operand value in the Intel and AT&T assembly closure is a literal, the parsers\' '
             '32-bit normalisation, or dominated by check_imm_size for the same size token with rejection on None (or an explicit interval test on the narrowing type\'s limit); the byte '
             'emission packs with the struct format of the checked size; the intervals of check_imm_size, the returned cast, dict_size formats and tab_size2int agree with the width '
-            'semantics of each size token; one mode variable drives the 0x66 prefix, the immediate width and the candidate tuple.',
-            'Not decided: that opcode/ModRM/SIB bytes denote the requested operands (the reverse table fd_afs is built at run time; its source tables are covered by C01/C17 rules), '
+            'semantics of each size token; one mode variable drives the 0x66 prefix, the immediate width and the candidate tuple; grammar actions accumulate register coefficients; '
+            'the reverse ModRM table (evaluated statically from init_pre_modrm) maps every operand shape only to ModRM/SIB bytes with an empty reg field that decode back to that shape, and is complete.',
+            'Not decided: that asm_candidates/forge_opc pick the right row and operand order for a concrete line (16/32-bit mode detection from operand order, memory vs register forms), '
             'candidate completeness, values outside [-2^31, 2^32) which the parsers normalise modulo 2^32 (0xFFFFFFFF is the same parsed value as -1).'),
     'C03': ('other',
             'static analysis: constant evaluation of printer tables and parser lexicons (register names, size keywords), injectivity analysis of the SSE suffix scheme, inverse-table comparison of mirrored special cases, linear-use typestate over the operand renderer',
